@@ -166,7 +166,10 @@ def run(res, tier, seed, driver_ok):
                         ik_same += 1
                         res.stats['ik_same_branch_rounding_amplified'] = res.stats.get('ik_same_branch_rounding_amplified', 0) + 1
                     else:
-                        res.violations.append({'key': 'ik-different-solution:%s' % name, 'what': 'both libraries converge from the same start but to different solutions',
+                        # both iterations left the principal range (some |theta_i| beyond 4*pi) before they settled: Newton's iteration is chaotic there
+                        # and the two libraries' rounding sends it to different branches — classified, see the known finding
+                        exc_ = ':after-excursion' if max(float(np.max(np.abs(np.asarray(thp)))), float(np.max(np.abs(np.asarray(rr[0]))))) > 4 * math.pi else ''
+                        res.violations.append({'key': 'ik-different-solution:%s%s' % (name, exc_), 'what': 'both libraries converge from the same start but to different solutions',
                                                'input': {'function': name, 'theta0': th0.tolist()}, 'observed': [np.asarray(thp).tolist(), np.asarray(rr[0]).tolist()]})
                 continue
             rp, ep = call(fp, args); rr, er = call(fr, args)
